@@ -790,6 +790,11 @@ func (c *Conn) readRecordOrCCS(expectChangeCipherSpec bool) error {
 			if len(data) == 0 || expectChangeCipherSpec {
 				return c.in.setErrorLocked(c.sendAlert(alertUnexpectedMessage))
 			}
+			if handshakeComplete {
+				// 握手完成后不支持重协商：迟到或重复的握手记录直接丢弃，
+				// 否则这些数据会在 handBuf 中无限累积
+				continue
+			}
 			c.handBuf.Write(data)
 			// 如果还有未处理记录，继续循环处理
 			if len(c.rawInputBuf) > 0 {
@@ -1471,7 +1476,7 @@ func (c *Conn) ReadFrom(p []byte) (n int, addr net.Addr, err error) {
 					return 0, c.remoteAddr, io.EOF
 				}
 			case recordTypeHandshake:
-				c.handBuf.Write(plaintext)
+				// 握手完成后不支持重协商：迟到或重复的握手记录直接丢弃
 			}
 			continue
 		}
